@@ -62,6 +62,9 @@ def gen(rng, ctx):
     elif rng.random() < 0.15 and ni <= 6:
         cd = G.add_cycles(rng, cd, rng.randint(1, 2))
         kind = "cyclic"
+    if kind == "acyclic" and rng.random() < 0.15 and ni >= 2:
+        cd = G.add_shared_parity(rng, cd, rng.randint(2, 3))
+        kind = "shared_parity"
     nodes = [n for n, _, _ in cd["nodes"]]
     tps = G.cd_types(cd)
     assumps = []
@@ -253,5 +256,5 @@ def decide(case, ctx, c, first):
 
 
 def gates(counters, table, tier):
-    need = ["approx_with_10plus_startpoints", "requery_after_set_type", "class:acyclic", "class:pins", "class:cyclic", "class:no_startpoints", "count_zero", "count_pos", "assume:internal", "dimacs_counted", "prob_mid", "cmp:signal_probability"]
+    need = ["class:shared_parity", "approx_with_10plus_startpoints", "requery_after_set_type", "class:acyclic", "class:pins", "class:cyclic", "class:no_startpoints", "count_zero", "count_pos", "assume:internal", "dimacs_counted", "prob_mid", "cmp:signal_probability"]
     return [f"{k} seen {counters.get(k, 0)} times" for k in need if counters.get(k, 0) < 3]
